@@ -583,7 +583,7 @@ func (c *VirtualTable) Insert(ctx context.Context, values map[int]interface{}) (
 	if err != nil {
 		return 0, fmt.Errorf("get: %w", err)
 	}
-	if ok && (!old.Deleted || !ot.Add(old.DeleteUpdateOffset.AsDuration()).Before(t)) {
+	if ok && (!old.Deleted || ot.Add(old.DeleteUpdateOffset.AsDuration()).After(t)) {
 		return 0, ErrS3DBConstraintPrimaryKey
 	}
 	new.ColumnValues = make(map[string]*v1proto.ColumnValue)
@@ -741,7 +741,11 @@ func MergeRows(_ interface{},
 			if !hideDeletedValue(t1, v1, resetValuesBefore) {
 				res.ColumnValues[k] = adj(t1, v1, outTime)
 			}
-		case UpdateTime(t1, v1).Before(UpdateTime(t2, v2)):
+		case !UpdateTime(t1, v1).After(UpdateTime(t2, v2)):
+			// r2 is the later of the two (the statement being applied, or the
+			// entry modified last): on equal write times it wins, so that two
+			// writes to one cell under one write time (two statements of one
+			// transaction) behave like SQL: the second one counts.
 			if !hideDeletedValue(t2, v2, resetValuesBefore) {
 				res.ColumnValues[k] = adj(t2, v2, outTime)
 			}
